@@ -14,9 +14,11 @@ from liquid2.builtin import KeywordArgument
 from liquid2.builtin import Null
 from liquid2.builtin import PositionalArgument
 from liquid2.builtin import StringLiteral
+from liquid2.exceptions import LiquidValueError
 from liquid2.exceptions import TranslationKeyError
 from liquid2.exceptions import TranslationValueError
 from liquid2.filter import int_arg
+from liquid2.limits import to_int
 from liquid2.messages import MESSAGES
 from liquid2.messages import MessageText
 from liquid2.messages import TranslatableFilter
@@ -475,7 +477,8 @@ def _count(val: Any) -> int | None:
     if val is None or isinstance(val, bool):
         return None
     try:
-        return int(val)
-    except (ValueError, TypeError, OverflowError):
-        # Not a number (a list, infinity, ...), like the translate tag's count.
+        return to_int(val)
+    except (ValueError, TypeError, OverflowError, LiquidValueError):
+        # Not a number (a list, infinity, ...), or one with too many digits to
+        # convert, like the translate tag's count.
         return None
